@@ -38,7 +38,9 @@ def pool(n, L):
 
 
 def fp(qc):
-    return (circs.gl(qc), tuple(sorted(qc.qubit_map.items())), qc.num_qubits, qc.name)
+    extra = tuple(tuple(sorted(getattr(qc, a))) for a in ("ancilla_lst", "free_ancilla_lst", "marked_ancillas") if hasattr(qc, a))
+    comp = tuple((g.__class__.__name__, tuple(w), p) for g, w, p in getattr(qc, "gates_computed", []))
+    return (circs.gl(qc), tuple(sorted(qc.qubit_map.items())), qc.num_qubits, qc.name, extra, comp)
 
 
 def embed_unitary(b, nb, qmap, n):
@@ -95,10 +97,15 @@ def mutate_and_check(result, operands, fps, label, bad, desc):
     """Mutate `result` in the two ways a user can and make sure no operand notices."""
     from qlasskit.qcircuit import gates
     try:
+        if hasattr(result, "add_ancilla"):
+            a = result.add_ancilla()
+            result.mark_ancilla(a)
+            result.uncompute()
+            result.get_free_ancilla()
         result.append(gates.X(), [0])
         for g, w, p in result.gates:
-            if len(w) >= 1:
-                w[0] = (w[0] + 1) % max(1, result.num_qubits) if result.num_qubits > 1 else w[0]
+            if len(w) == 1 and result.num_qubits > 1:
+                w[0] = (w[0] + 1) % result.num_qubits  # overwrite a qubit index in place
                 break
         result.qubit_map["__mut"] = 0
     except Exception as e:
@@ -172,49 +179,63 @@ def run_compose(case, bad):
     return states, rows, nontriv
 
 
+def make_kind(kind, n, seq):
+    """A plain QCircuit or a QCircuitEnhanced with one used ancilla (the compiler's working object)."""
+    if kind == "plain":
+        return circs.make(n, seq)
+    from qlasskit.qcircuit import QCircuitEnhanced
+    qc = circs.build(QCircuitEnhanced(n), seq)
+    a = qc.add_ancilla(is_free=False)
+    qc.cx(0, a)
+    qc.mark_ancilla(a)
+    return qc
+
+
 def run_unary(case, bad):
-    n = case["n"]
+    n0 = case["n"]
     states = rows = nontriv = 0
-    for seq in pool(n, case["L"]):
-        desc = "a=%s (n=%d)" % (seq, n)
-        states += 1
-        if any(len(l) > 2 for l in seq):
-            nontriv += 1
-        for k in (1, 2, 3):
-            a = circs.make(n, seq)
-            fa = fp(a)
-            U = svsim.unitary(a.gates, n)
-            try:
-                r = a.repeat(k)
-                rows += 1
-                if fp(a) != fa:
-                    bad.append({"op": "repeat(%d)" % k, "what": desc, "problem": "operand modified"})
-                if r.num_qubits != n or not svsim.close(svsim.unitary(r.gates, n), np.linalg.matrix_power(U, k)):
-                    bad.append({"op": "repeat(%d)" % k, "what": desc, "problem": "result is not the %d-fold composition" % k})
-                mutate_and_check(r, [a], [fa], "repeat(%d)" % k, bad, desc)
-            except Exception as e:
-                bad.append({"op": "repeat(%d)" % k, "what": desc, "problem": "raised %s: %s" % (H.exc_name(e), str(e)[:60])})
-        for vanilla in (False, True):
-            a = circs.make(n, seq)
-            a.qubit_map["extra_name"] = 0
-            fa = fp(a)
-            U = svsim.unitary(a.gates, n)
-            try:
-                r = a.copy(vanilla=vanilla)
-                rows += 1
-                if fp(a) != fa:
-                    bad.append({"op": "copy(vanilla=%s)" % vanilla, "what": desc, "problem": "operand modified"})
-                if r.num_qubits != n or not svsim.close(svsim.unitary(r.gates, n), U):
-                    bad.append({"op": "copy(vanilla=%s)" % vanilla, "what": desc, "problem": "the copy is not an equal circuit"})
-                if not vanilla and fp(r) != fa:
-                    bad.append({"op": "copy()", "what": desc, "problem": "the copy differs from its source"})
-                if vanilla and dict(r.qubit_map) != {"q%d" % i: i for i in range(n)}:
-                    bad.append({"op": "copy(vanilla=True)", "what": desc, "problem": "mapping info not reset"})
-                mutate_and_check(r, [a], [fa], "copy(vanilla=%s)" % vanilla, bad, desc)
-            except Exception as e:
-                bad.append({"op": "copy(vanilla=%s)" % vanilla, "what": desc, "problem": "raised %s: %s" % (H.exc_name(e), str(e)[:60])})
-        if len(bad) > 40:
-            break
+    for kind in ("plain", "enhanced"):
+      n = n0 if kind == "plain" else n0 + 1
+      for seq in pool(n0, case["L"]):
+          desc = "%s circuit a=%s (n=%d)" % (kind, seq, n)
+          states += 1
+          if any(len(l) > 2 for l in seq):
+              nontriv += 1
+          for k in (1, 2, 3):
+              a = make_kind(kind, n0, seq)
+              fa = fp(a)
+              U = svsim.unitary(a.gates, n)
+              try:
+                  r = a.repeat(k)
+                  rows += 1
+                  if fp(a) != fa:
+                      bad.append({"op": "repeat(%d)" % k, "what": desc, "problem": "operand modified"})
+                  if r.num_qubits != n or not svsim.close(svsim.unitary(r.gates, n), np.linalg.matrix_power(U, k)):
+                      bad.append({"op": "repeat(%d)" % k, "what": desc, "problem": "result is not the %d-fold composition" % k})
+                  mutate_and_check(r, [a], [fa], "repeat(%d)" % k, bad, desc)
+              except Exception as e:
+                  bad.append({"op": "repeat(%d)" % k, "what": desc, "problem": "raised %s: %s" % (H.exc_name(e), str(e)[:60])})
+          for vanilla in (False, True):
+              a = make_kind(kind, n0, seq)
+              a.qubit_map["extra_name"] = 0
+              fa = fp(a)
+              U = svsim.unitary(a.gates, n)
+              try:
+                  r = a.copy(vanilla=vanilla)
+                  rows += 1
+                  if fp(a) != fa:
+                      bad.append({"op": "copy(vanilla=%s)" % vanilla, "what": desc, "problem": "operand modified"})
+                  if r.num_qubits != n or not svsim.close(svsim.unitary(r.gates, n), U):
+                      bad.append({"op": "copy(vanilla=%s)" % vanilla, "what": desc, "problem": "the copy is not an equal circuit"})
+                  if not vanilla and fp(r) != fa:
+                      bad.append({"op": "copy()", "what": desc, "problem": "the copy differs from its source"})
+                  if vanilla and dict(r.qubit_map) != {"q%d" % i: i for i in range(n)}:
+                      bad.append({"op": "copy(vanilla=True)", "what": desc, "problem": "mapping info not reset"})
+                  mutate_and_check(r, [a], [fa], "copy(vanilla=%s)" % vanilla, bad, desc)
+              except Exception as e:
+                  bad.append({"op": "copy(vanilla=%s)" % vanilla, "what": desc, "problem": "raised %s: %s" % (H.exc_name(e), str(e)[:60])})
+          if len(bad) > 40:
+              break
     return states, rows, nontriv
 
 
